@@ -14,7 +14,7 @@ NAMES = ["q1", "q2", "c1", "o1"]
 
 def column(rng, kind, n, y):
     shape = rng.choice(["constant", "all_nan", "near_unique", "many_rare", "spike", "ties", "plain", "two_values",
-                        "rare_tail", "nan_one_class", "rare_top", "ulps"])
+                        "rare_tail", "nan_one_class", "rare_top", "ulps", "zero_spike"])
     if shape == "nan_one_class":
         # observed only inside one target class (missing everywhere else), >= 2 frequent modalities
         cls0 = rng.choice(sorted(set(y)))
@@ -51,6 +51,13 @@ def column(rng, kind, n, y):
             # neighbouring doubles: quantile boundaries that differ in their 16th-17th significant digit only
             base, step = rng.choice([(1.0, 2.0 ** -52), (2.0 ** 60, 256.0), (-1.0, 2.0 ** -53), (123.0, 2.0 ** -46)])
             col = [base + rng.randint(0, 9) * step for _ in range(n)]
+        elif shape == "zero_spike":
+            # 0.0 is a quantile boundary, with a rare bucket just below it (and often missing values)
+            neg = rng.choice([0.02, 0.03, 0.06])
+            col = []
+            for _ in range(n):
+                r = rng.random()
+                col.append(-float(rng.randint(1, 3)) if r < neg else 0.0 if r < neg + 0.45 else float(rng.randint(1, 9)))
         elif shape == "rare_top":
             # discrete feature whose largest value is rarer than min_freq (an under-populated last bucket)
             k = rng.randint(2, 5)
